@@ -149,6 +149,26 @@ def fs_of(sc):
     return float.fromhex(sc["Fs"]) if sc.get("Fs") is not None else 2 * np.pi
 
 
+_WIN_FN = {}
+
+
+def welch_window(token, nfft):
+    """(object handed to get_spectra in the method dict, window values) for a window token:
+    'none' -> mlab.window_none, 'array' -> a Hamming window as an ndarray, 'callable' -> a function applying a
+    Bartlett window, absent -> mlab.window_hanning (get_spectra's default)"""
+    import matplotlib.mlab as mlab
+    if token == "none":
+        return mlab.window_none, np.ones(nfft)
+    if token == "array":
+        w = np.hamming(nfft)
+        return w, w
+    if token == "callable":
+        if "bartlett" not in _WIN_FN:
+            _WIN_FN["bartlett"] = lambda x: x * (np.bartlett(len(x)) + 0.125)
+        return _WIN_FN["bartlett"], np.bartlett(nfft) + 0.125
+    return mlab.window_hanning, np.hanning(nfft)
+
+
 def run_scenario(sc, data=None, with_history=False):
     """run the implementation; returns dict(out=…, rec=Rec, err=None|exception).  `with_history`: first make
     the calls listed under sc["history"] (same process), as a replay from a fresh process needs."""
@@ -204,6 +224,8 @@ def run_scenario(sc, data=None, with_history=False):
                 m = dict(sc.get("method") or {})
                 if "Fs" in m:
                     m["Fs"] = float.fromhex(m["Fs"])
+                if "window" in m:
+                    m["window"] = res["window_obj"] = welch_window(m["window"], m.get("NFFT", 64))[0]
                 f, out = sp.get_spectra(x, m if (m or sc.get("method") is not None) else None)
             else:
                 raise KeyError(est)
@@ -401,6 +423,15 @@ def we_case_coq(sc, res):
                 return i
         return None
 
+    want_win = res.get("window_obj", mlab.window_hanning)
+
+    def win_ok(w):
+        # (the Coq field is named wc_window_hanning: "the window argument is the expected one" — mlab.window_hanning
+        # by default, otherwise the very object given in the method dict)
+        if isinstance(want_win, np.ndarray):
+            return isinstance(w, np.ndarray) and np.array_equal(w, want_win)
+        return w is want_win
+
     for a, k, (pxy, f) in res["rec"].csd:
         if len(a) != 7:
             return None
@@ -409,7 +440,7 @@ def we_case_coq(sc, res):
             return None
         calls.append("(mk_wcall %s %s %s %s %s %s %s %s %s)" % (
             nat(ia), nat(ib), nat(a[2]), flit(a[3]), nat(a[6]), blit(a[4] is mlab.detrend_none),
-            blit(a[5] is mlab.window_hanning), blit(k == {"scale_by_freq": True}), crow(np.asarray(pxy).squeeze())))
+            blit(win_ok(a[5])), blit(k == {"scale_by_freq": True}), crow(np.asarray(pxy).squeeze())))
     out = res["out"]
     fs = m.get("Fs")
     return "(mk_we %s %s %s %s %s %s %s %s %s)" % (
@@ -906,8 +937,8 @@ def gen_siblings(rng, est, nmax=24, max_ch=3, opt=None):
     return [a, b, c]
 
 
-def gen_welch(rng, nmax=256):
-    M = rng.choice([0, 1, 2, 3, 3, 4, 5])
+def gen_welch(rng, nmax=256, window=None, M=None):
+    M = rng.choice([0, 1, 2, 3, 3, 4, 5]) if M is None else M
     nfft = rng.choice([None, 16, 32, 64, 24, 17])
     n = (nfft or 64) * rng.randint(1, 4) + rng.randint(0, 7)
     cplx = rng.random() < 0.25
@@ -920,6 +951,10 @@ def gen_welch(rng, nmax=256):
         method["Fs"] = float(fs).hex()
     if rng.random() < 0.4:
         method["n_overlap"] = rng.randint(0, (nfft or 64) - 1)
+    if window is None and rng.random() < 0.35:
+        window = rng.choice(["none", "array", "callable"])
+    if window:
+        method["window"] = window
     sc = {"est": "welch", "method": method if rng.random() < 0.9 or len(method) > 1 else None}
     set_data(sc, gen_signal(rng, lead, n, cplx))
     if not sc["cplx"] and rng.random() < 0.15:
@@ -931,8 +966,8 @@ def klass(sc):
     est = sc["est"]
     if est == "welch":
         m = sc.get("method") or {}
-        return "welch/M%d/%s/nfft%s" % (len(sc["shape"]) > 1 and sc["shape"][0] or 0, "cplx" if sc["cplx"] else "real",
-                                        m.get("NFFT"))
+        return "welch/M%d/%s/nfft%s/window-%s" % (len(sc["shape"]) > 1 and sc["shape"][0] or 0, "cplx" if sc["cplx"] else "real",
+                                                  m.get("NFFT"), m.get("window", "default"))
     n = sc["shape"][-1]
     nf = sc.get("NFFT")
     return "%s/%s/%s/%s/%s/%s%s" % (
